@@ -29,19 +29,19 @@ Definition regex_sites : list re_site := [
   (* interp/interp.go:872 *)
   mkReSite "interp" "interp.go" "setSpecial" "Compile" "compiler.AddRegexFlags(p.fieldSep)"
     (TLocal "re") true [] true;
-  (* interp/interp.go:892 *)
+  (* interp/interp.go:898 *)
   mkReSite "interp" "interp.go" "setSpecial" "MustCompile" "sep"
     (TField "p.recordSepRegex") true [] true;
-  (* interp/interp.go:897 *)
+  (* interp/interp.go:903 *)
   mkReSite "interp" "interp.go" "setSpecial" "MustCompile" "sep"
     (TField "p.recordSepRegex") true [] true;
-  (* interp/interp.go:900 *)
+  (* interp/interp.go:906 *)
   mkReSite "interp" "interp.go" "setSpecial" "Compile" "compiler.AddRegexFlags(p.recordSep)"
     (TLocal "re") true [] true;
-  (* interp/interp.go:1061 *)
+  (* interp/interp.go:1067 *)
   mkReSite "interp" "interp.go" "compileRegex" "Compile" "compiler.AddRegexFlags(regex)"
     (TLocal "re") true [] true;
-  (* internal/compiler/compiler.go:1107 *)
+  (* internal/compiler/compiler.go:1110 *)
   mkReSite "internal/compiler" "compiler.go" "regexIndex" "MustCompile" "AddRegexFlags(r)"
     (TLocal "re") true [] true;
   (* parser/parser.go:1040 *)
